@@ -35,7 +35,7 @@ RULE = ("case = body program (random tree over await non-suspending nested calls
         "natively (under an event loop when it does not suspend; native throw of SynchronousAbort at the suspension point "
         "otherwise), coro_is_finished, __cause__ type, and a later `await` of the blocked-on Future from an ordinary Task; "
         "non-trivial = nested completion (depth>=1), suspension inside try/finally or handler, suspension on a real Future, "
-        "abort swallowed (excluded domain), aiter_sync with >=2 items or a suspending __anext__; distinct = hash of the "
+        "clean-up that suspends again while the abort propagates (depth 0..3), abort swallowed (excluded domain), aiter_sync with >=2 items or a suspending __anext__; distinct = hash of the "
         "canonical case line")
 
 SYNC_CATCHES = ["E1", "E2", "Cancelled", "GenExit", "Exception", "BaseException", "SyncAbort"]
@@ -56,6 +56,62 @@ def depth_of(stmts):
         elif s[0] == "try":
             d = max(d, depth_of(s[1]), depth_of(s[3]), *[depth_of(h) for _, h in s[2]] or [0])
     return d
+
+
+def depth_at_cleanup(stmts):
+    """nesting depth (number of enclosing `call`s) of the deepest finally/handler that awaits"""
+    best = -1
+
+    def has_await(ss):
+        return any(x[0] in ("tok", "fut", "bare") or (x[0] == "call" and has_await(x[1]))
+                   or (x[0] == "try" and (has_await(x[1]) or has_await(x[3]) or any(has_await(h) for _, h in x[2])))
+                   for x in ss)
+
+    def walk(ss, d):
+        nonlocal best
+        for x in ss:
+            if x[0] == "call":
+                walk(x[1], d + 1)
+            elif x[0] == "try":
+                if has_await(x[3]) or any(has_await(h) for _, h in x[2]):
+                    best = max(best, d)
+                walk(x[1], d)
+                walk(x[3], d)
+                for _, h in x[2]:
+                    walk(h, d)
+    walk(stmts, 0)
+    return max(best, 0)
+
+
+def gen_cleanup(rng):
+    """Bodies whose clean-up suspends again without swallowing the abort: innermost frame
+    `try: await X finally: …; await Y; …`, wrapped in 0..3 frames that each have a finally (and now and
+    then a handler that re-raises), as in the repo's own `cleanupper` test coroutine."""
+    k = [0]
+
+    def aw():
+        k[0] += 1
+        return ("fut", k[0]) if rng.random() < 0.7 else ("tok", k[0])
+
+    def cleanup():
+        out = [("log", 10 + k[0])]
+        if rng.random() < 0.85:
+            out.append(aw())
+        if rng.random() < 0.3:
+            out = [("try", out, [], [("log", 30 + k[0])])]
+        out.append(("log", 20 + k[0]))
+        return out
+    inner = [("try", [("log", 1), aw(), ("log", 2)],
+              [("BaseException", [("log", 3), aw(), ("reraise",)])] if rng.random() < 0.25 else [], cleanup())]
+    depth = rng.choice([0, 1, 1, 2, 2, 3])
+    body = inner
+    for lvl in range(depth):
+        fin = cleanup() if rng.random() < 0.5 else [("log", 40 + lvl)]
+        hs = [("E1", [("log", 50 + lvl)])] if rng.random() < 0.3 else []
+        body = [("try", [("call", body)], hs, fin)]
+        if rng.random() < 0.3:
+            body = [("cset", 0, lvl + 1)] + body
+    return body + [("ret", 5)]
 
 
 def outcome(fn):
@@ -132,6 +188,7 @@ def _native_expect(stmts, loop):
         res["log"] = env2.log()
         res["log_direct"] = env.log()
     else:
+        n_before = len(env.L)
         try:
             y2 = c.throw(cm.RefAbort())
         except StopIteration:
@@ -139,8 +196,23 @@ def _native_expect(stmts, loop):
         except BaseException as e:  # noqa: BLE001
             res["abort"] = "x:" + cm.cname(e)
         else:
-            res["abort"] = "yield"          # outside the property's domain
+            # The body suspended again in response to the abort.  If a handler *caught* the abort
+            # on the way (it logs `cSyncAbort`) the case is outside the property's domain.  If only
+            # clean-up code (finally blocks) is waiting, the abort is still propagating: the
+            # coroutine must nevertheless end up finalized — natively that is what close() does.
+            res["abort"] = "yield"
             res["keep2"] = y2
+            res["caught"] = "cSyncAbort" in env.L[n_before:]
+            if not res["caught"]:
+                try:
+                    c.close()
+                    res["close"] = "-"
+                except RuntimeError as e:
+                    res["close"] = "x:" + cm.cname(e)
+                except BaseException as e:  # noqa: BLE001
+                    res["close"] = "x:" + cm.cname(e)
+                if asynkit.coro_is_finished(c):
+                    res["cv"] = env.cv_line()
         res["log"] = env.log()
         res["finished"] = asynkit.coro_is_finished(c)
         if res["abort"] != "yield":
@@ -149,9 +221,15 @@ def _native_expect(stmts, loop):
     return res
 
 
-def check_future_untouched(env, loop):
-    """The Future(s) the coroutine blocked on: pending, no callbacks, and awaitable by a Task."""
-    for k, f in list(env.F.items()):
+def check_future_untouched(env, loop, only_first=False):
+    """The Future(s) the coroutine blocked on: pending, no callbacks, and awaitable by a Task.
+    `only_first`: just the one it was suspended on when await_sync gave up (a Future awaited later,
+    during clean-up, is not "the object it was suspended on"; the property is silent about it)."""
+    items = list(env.F.items())
+    if only_first:
+        first = env.F.order[0] if env.F.order else None
+        items = [(k, f) for k, f in items if f is first]
+    for k, f in items:
         if f.done():
             return f"future {k} was completed/cancelled by await_sync"
         if f._callbacks:
@@ -201,8 +279,31 @@ def judge_sync(stmts, loop, variant="await_sync"):
         tags.add("suspends-on-future" if on_future else "suspends-on-token")
         if "l" in a["log"] or "c" in a["log"]:
             tags.add("suspension-inside-try-or-after-effects")
-        if exp["abort"] == "yield":
+        if exp["abort"] == "yield" and (exp["caught"] or not exp["finished"]):
+            # abort caught by a handler and a new suspension, or clean-up that even ignores
+            # GeneratorExit: no claim
             tags.add("excluded:abort-swallowed-then-suspended")
+        elif exp["abort"] == "yield":
+            # clean-up (finally blocks) suspends again while the abort is still propagating:
+            # "the coroutine has been finalized - its finally blocks have run and it is finished"
+            d = depth_at_cleanup(stmts)
+            tags.add("cleanup-suspends-again" + (f"-depth-{min(d, 3)}" if d else ""))
+            if a["out"] != "x:SyncError" and not (exp["close"] != "-" and a["out"] == exp["close"]):
+                bad = ("suspending coroutine did not give SynchronousError", "x:SyncError", a["out"])
+            elif not asynkit.coro_is_finished(c) or a["phase"] != "done":
+                bad = ("coroutine left suspended in the middle of its clean-up (not finalized)", "finished",
+                       a["phase"])
+            elif a["log"] != exp["log"]:
+                bad = ("not every finally block has run (effects differ from native abort + close)",
+                       exp["log"], a["log"])
+            elif f"cv={a['cv']} ; reset={a['reset']}" != exp["cv"]:
+                bad = ("context-variable side effects visible to the caller differ from the native run", exp["cv"],
+                       f"cv={a['cv']} ; reset={a['reset']}")
+            elif on_future:
+                why = check_future_untouched(env, loop, only_first=True)
+                if why:
+                    bad = ("the awaited Future was not left untouched: " + why, "pending, no callbacks, awaitable",
+                           why)
         else:
             if a["out"] != "x:SyncError":
                 bad = ("suspending coroutine did not give SynchronousError", "x:SyncError", a["out"])
@@ -373,7 +474,7 @@ def key_of(kind, bad):
         slug = "future-left-blocking" if "RuntimeError" in str(bad[2]) or "ordinary Task" in w else "future-touched"
     elif "chained" in w:
         slug = "cause"
-    elif "left suspended" in w:
+    elif "left suspended" in w or "finally block" in w:
         slug = "stranded"
     elif "did not give" in w:
         slug = "no-SynchronousError"
@@ -478,7 +579,8 @@ def run(ctx):
     try:
         l0, r0 = explore_sync(ctx, corpus_cases(), loop, label="corpus: ")
         n = 80000 if ctx.thorough() else 3000
-        cases = [(gen_sync(rng), "syncfunction" if rng.random() < 0.2 else "await_sync") for _ in range(n)]
+        cases = [(gen_cleanup(rng) if i % 10 == 0 else gen_sync(rng),
+                  "syncfunction" if rng.random() < 0.2 else "await_sync") for i in range(n)]
         l1, r1 = explore_sync(ctx, cases, loop)
         for c in cases[:3]:
             ctx.sample("sync | " + cm.sexp(c[0]))
